@@ -346,7 +346,7 @@ PROPS["C18"] = {
     "deciding_counters": ["C18_cuts", "C18_cuts_opened", "C18_cuts_refused", "C18_cuts_consistent", "C18_reconstructions_validated"],
     "anchors": ["Traph.__init__", "FileStorage.check_for_corruption", "LRUTrieNode.write", "LinkStore.add_links", "LRUTrie.add_lru"],
     "quick": dict(cases=48, nops=(5, 10, 16), byte_offsets=3, validate=1, scale=1100, scale_cuts=30, time_cap=200, watchdog=1200, min_cases=8),
-    "thorough": dict(cases=400, nops=(5, 12, 20, 40), byte_offsets="all", validate=3, scale=2300, scale_cuts=300, time_cap=1000, watchdog=3000, min_cases=60),
+    "thorough": dict(cases=400, nops=(5, 12, 20, 40), byte_offsets="all", validate=3, scale=2300, scale_cuts=120, time_cap=1000, watchdog=3000, min_cases=60),
     "level": "fault_enumeration",
     "level_text": "Exhaustive enumeration of crash points per recorded history (every logged write, every byte of every append) under the "
                   "statement's fault model; the histories themselves are sampled.",
